@@ -58,7 +58,7 @@ fn c11_u64_to_bytes() {
     std::mem::forget(got);
 }
 
-harness_sha!(c11_coin_id_preimage, 75, {
+harness_sha!(c11_coin_id_preimage, 36, {
     let parent: [u8; 32] = kani::any();
     let ph: [u8; 32] = kani::any();
     let v: u64 = kani::any();
@@ -79,7 +79,7 @@ harness_sha!(c11_coin_id_preimage, 75, {
     }
     // and the id is the digest of exactly that stream
     let n = 64 + len;
-    let d = unsafe { stubs::model_digest(&stubs::REC, n) };
+    let d = unsafe { stubs::model_digest(&crate::stubs::G.rec, n) };
     assert!(id.as_ref() == &d[..]);
     kani::cover!(len == 0);
     kani::cover!(len == 9);
